@@ -234,9 +234,15 @@ def check_rst(report):
                 and isinstance(n.body[0].value.value, str) and n.body[0].value.value and n.body[0].value.value[-1] not in "\"\\"
             earlier_safe = earlier_safe and body_ok
             n = n.orelse[0] if len(n.orelse) == 1 else None
+    def _const(e):      # a literal, or a module-level name bound to one (hoisted constant)
+        if isinstance(e, ast.Name) and e.id in fi.module.assigns:
+            from ..pyeval import Evaluator as _E, UNKNOWN as _U
+            v_ = _E({}).ev(fi.module.assigns[e.id])          # a constant expression such as '"' * 3
+            return None if v_ is _U else v_
+        return e.value if isinstance(e, ast.Constant) else None
     triple = [n for n in fn.body if isinstance(n, ast.Assign) and isinstance(n.targets[0], ast.Name) and n.targets[0].id == A
               and isinstance(n.value, ast.Call) and ast.unparse(n.value.func) == f"{A}.replace" and n.value.args
-              and isinstance(n.value.args[0], ast.Constant) and n.value.args[0].value == '"""']
+              and _const(n.value.args[0]) == '"""']
     if triple:
         guards["embedded triple quote"] = triple[0]
     for what in ("trailing double quote", "embedded triple quote", "trailing backslash"):
